@@ -31,7 +31,7 @@ ANCHORS = [
     "acnportal.acnsim.interface:Interface._infrastructure_info",
     "acnportal.algorithms.utils:infrastructure_constraints_feasible",
 ]
-REQUIRED = ["history_op:update_with_a_current_derived_from_the_registered_object", "schedules_whose_currents_cancel_across_stations", "schedules_of_over_1000_periods", "decisive_column_positions_judged", "integer_row_first_in_mapping", "explicit_tolerances_differ_from_network", "explicit_zero_tolerance_on_tolerant_network", "phasor_judged", "linear_judged", "near_boundary_judged", "constraint_free_sim_runs", "history_rejudged",
+REQUIRED = ["schedules_in_which_every_station_discharges", "history_op:update_with_a_current_derived_from_the_registered_object", "schedules_whose_currents_cancel_across_stations", "schedules_of_over_1000_periods", "decisive_column_positions_judged", "integer_row_first_in_mapping", "explicit_tolerances_differ_from_network", "explicit_zero_tolerance_on_tolerant_network", "phasor_judged", "linear_judged", "near_boundary_judged", "constraint_free_sim_runs", "history_rejudged",
             "history_op:remove_not_last", "history_op:update", "history_op:update_rename", "history_op:add",
             "regime:phasor-accept", "regime:phasor-reject", "regime:linear-accept", "regime:linear-reject",
             "regime:T>1", "regime:mixed-sign"]
@@ -84,6 +84,10 @@ def cases(seed, tier):
         neg = rng.random() < 0.1
         if neg:
             D = [[-x if rng.random() < 0.3 else x for x in r] for r in D]
+        if rng.random() < 0.05:
+            # every station discharges (vehicle-to-grid): the aggregate is negative, its MAGNITUDE is what the limit bounds
+            D = [[-abs(x) for x in r] for r in D]
+            neg = "discharge"
         if ns >= 2 and rng.random() < 0.12:
             # bidirectional schedules whose station currents cancel exactly in every period (+x on one station, -x on another,
             # the rest idle): the plain sum of the column is 0, the phase-aware weighted sum in general is not
@@ -98,7 +102,7 @@ def cases(seed, tier):
             nd["built_tol"] = [rng.choice([1e-5, 1e-3, 1e-2]), rng.choice([1e-7, 1e-4, 1e-3])]
             if rng.random() < 0.6:
                 nd["tol"] = [rng.choice([0, 0, 1e-7]), rng.choice([0, 0, 1e-7])]
-        out.append({"kind": "feas", "net": nd, "D": D, "k": rng.choice(KS), "mode": rng.choice(["phasor", "linear"]), "cancel": neg == "cancel",
+        out.append({"kind": "feas", "net": nd, "D": D, "k": rng.choice(KS), "mode": rng.choice(["phasor", "linear"]), "cancel": neg == "cancel", "discharge": neg == "discharge",
                     "omit": rng.random() < 0.3, "oseed": rng.randrange(1 << 30), "use_defaults": rng.random() < 0.25})
         if i % (100 if tier == "quick" else 40) == 0:
             # schedules of hundreds to thousands of periods, almost idle, with the one decisive column anywhere: first, last, in
@@ -171,6 +175,8 @@ def run_case(case, obs):
 
 def _run_feas(case, obs):
     nd, D = case["net"], case["D"]
+    if case.get("discharge"):
+        obs.ev("schedules_in_which_every_station_discharges")
     if case.get("cancel"):
         obs.ev("schedules_whose_currents_cancel_across_stations")
     alpha, ts = _scale(nd, D, case["k"], case["mode"])
